@@ -129,41 +129,14 @@ SHAPES = [
 ]
 
 
-def run(P: Program, rep: Report):
-    rep.not_decided += ["display width of tabs / wide characters", "entries with more than 3 fields and libraries with more than 5 blocks "
-                        "(covered by uniformity of the comma / separator predicates, which compare the index with len-1 only)"]
-    wmod = P.module("writer")
+def check_templates(P: Program, rep: Report, rule: str, rule_fmt, shapes, trailings=(True, False), vcmodes=("sym", "auto", "zero")):
+    """Symbolic serialisation of `shapes` compared with the reference template; returns (configurations, paths)."""
     wfn = P.func("writer", "write")
-    fmtcls = P.cls("writer", "BibtexFormat")
-
-    # ------------------------------------------------------------ R1 option liveness
-    rep.rule("C06.R1", "every BibtexFormat option is read by the writer through the format argument (a property that no "
-                       "serialiser reads cannot influence the output)")
-    props = [n for n, m in fmtcls.methods.items() if m.is_property]
-    rep.require_count("C06.R1", "BibtexFormat options", len(props), 5)
-    reads = {p: [] for p in props}
-    for f in wmod.functions.values():
-        for n in ast.walk(f.node):
-            if isinstance(n, ast.Attribute) and isinstance(n.ctx, ast.Load) and n.attr in reads and not (isinstance(n.value, ast.Name) and n.value.id == "self"):
-                reads[n.attr].append(f"{f.name}:{n.lineno}")
-    for p in props:
-        rep.check(bool(reads[p]), "C06.R1", f"option:{p}", fmtcls.methods[p].loc,
-                  f"BibtexFormat.{p} is never read by the writer: the configured value cannot reach the output",
-                  note=f"read at {reads[p][:3]}")
-
-    # ------------------------------------------------------------ R3-R6 symbolic templates
-    rep.rule("C06.R3", "symbolic serialisation: for every library shape and option setting the text produced by write() "
-                       "(abstractly interpreted over symbolic strings and linear integer forms) equals the reference "
-                       "template: blocks in order joined by the separator (none after the last), each field line = indent, key, "
-                       "max(0, value_column-len(key)-3) spaces, ' = ', value, comma iff trailing_comma or not last, newline; "
-                       "failed blocks = configured comment formatted with the line count, newline, raw, newline; 'auto' = "
-                       "max key length over all entries + 3")
-    rep.rule("C06.R2", "the format object passed to write() is left unchanged (same option values afterwards), also for 'auto'")
     n_paths = 0
     n_cfg = 0
-    for si, shape in enumerate(SHAPES):
-        for trailing in (True, False):
-            for vcmode in ("sym", "auto", "zero"):
+    for si, shape in enumerate(shapes):
+        for trailing in trailings:
+            for vcmode in vcmodes:
                 n_cfg += 1
                 cfg = f"shape{si}:{'tc' if trailing else 'notc'}:{vcmode}"
 
@@ -197,25 +170,60 @@ def run(P: Program, rep: Report):
                         continue  # e.g. negative value_column rejected by the setter
                     n_paths += 1
                     if kind == "unsupported":
-                        raise AnalysisError(f"C06.R3: analyser cannot follow write(): {out}")
+                        raise AnalysisError(f"{rule}: analyser cannot follow write(): {out}")
                     if kind == "raise":
-                        rep.fail("C06.R3", f"write-raises:{out.cls_name()}:{cfg}", common.raise_site(P, out) or wfn.loc,
+                        rep.fail(rule, f"write-raises:{out.cls_name()}:{cfg}", common.raise_site(P, out) or wfn.loc,
                                  f"write() raises {out.cls_name()} for {cfg} ({out.exc!r})")
                         continue
                     key_lens = [Lin({("len", f"b{d[1]}.f{j}.key"): 1}, 0) for d in descr if d[0] == "entry" for j in range(d[2])]
                     want = ref_write(descr, opts, it.lin_assumptions, key_lens)
                     got = out if isinstance(out, Template) else Template([out]) if isinstance(out, (str, Hole)) else out
                     if got == want:
-                        rep.ok("C06.R3", f"template:{cfg}:{'/'.join(a.split(' = ')[-1] for a in ctx.assumed[-3:])}", wfn.loc, nontrivial=True)
+                        rep.ok(rule, f"template:{cfg}:{'/'.join(a.split(' = ')[-1] for a in ctx.assumed[-3:])}", wfn.loc, nontrivial=True)
                     else:
                         gp = got.pieces if isinstance(got, Template) else [got]
                         wp = want.pieces
                         i = next((i for i, (a, b) in enumerate(zip(gp, wp)) if not (a == b)), min(len(gp), len(wp)))
-                        rep.fail("C06.R3", f"template:{cfg}", wfn.loc,
+                        rep.fail(rule, f"template:{cfg}", wfn.loc,
                                  f"written text differs from the format contract for {cfg} at piece {i}: got {gp[max(0,i-2):i+3]!r}, "
                                  f"contract {wp[max(0,i-2):i+3]!r} (assumptions {ctx.assumed[-3:]})")
-                    rep.check(bool(same), "C06.R2", f"format-unchanged:{cfg}", wfn.loc,
-                              f"write() modifies the format object it was given ({cfg})")
+                    if rule_fmt:
+                        rep.check(bool(same), rule_fmt, f"format-unchanged:{cfg}", wfn.loc,
+                                  f"write() modifies the format object it was given ({cfg})")
+    return n_cfg, n_paths
+
+
+def run(P: Program, rep: Report):
+    rep.not_decided += ["display width of tabs / wide characters", "entries with more than 3 fields and libraries with more than 5 blocks "
+                        "(covered by uniformity of the comma / separator predicates, which compare the index with len-1 only)"]
+    wmod = P.module("writer")
+    wfn = P.func("writer", "write")
+    fmtcls = P.cls("writer", "BibtexFormat")
+
+    # ------------------------------------------------------------ R1 option liveness
+    rep.rule("C06.R1", "every BibtexFormat option is read by the writer through the format argument (a property that no "
+                       "serialiser reads cannot influence the output)")
+    props = [n for n, m in fmtcls.methods.items() if m.is_property]
+    rep.require_count("C06.R1", "BibtexFormat options", len(props), 5)
+    reads = {p: [] for p in props}
+    for f in wmod.functions.values():
+        for n in ast.walk(f.node):
+            if isinstance(n, ast.Attribute) and isinstance(n.ctx, ast.Load) and n.attr in reads and not (isinstance(n.value, ast.Name) and n.value.id == "self"):
+                reads[n.attr].append(f"{f.name}:{n.lineno}")
+    for p in props:
+        rep.check(bool(reads[p]), "C06.R1", f"option:{p}", fmtcls.methods[p].loc,
+                  f"BibtexFormat.{p} is never read by the writer: the configured value cannot reach the output",
+                  note=f"read at {reads[p][:3]}")
+
+    # ------------------------------------------------------------ R3-R6 symbolic templates
+    rep.rule("C06.R3", "symbolic serialisation: for every library shape and option setting the text produced by write() "
+                       "(abstractly interpreted over symbolic strings and linear integer forms) equals the reference "
+                       "template: blocks in order joined by the separator (none after the last), each field line = indent, key, "
+                       "max(0, value_column-len(key)-3) spaces, ' = ', value, comma iff trailing_comma or not last, newline; "
+                       "failed blocks = configured comment formatted with the line count, newline, raw, newline; 'auto' = "
+                       "max key length over all entries + 3")
+    rep.rule("C06.R2", "the format object passed to write() is left unchanged (same option values afterwards), also for 'auto'")
+    n_cfg, n_paths = check_templates(P, rep, "C06.R3", "C06.R2", SHAPES)
     rep.count("writer_configurations", n_cfg)
     rep.count("writer_paths", n_paths)
     rep.require_count("C06.R3", "writer paths explored", n_paths, 40)
@@ -239,3 +247,8 @@ def run(P: Program, rep: Report):
                     ok = len(other) == 1 and (f"len({seq})" in ast.unparse(other[0]) or (isinstance(other[0], ast.Constant) and other[0].value in (0, 1)))
                     rep.check(ok, "C06.R4", f"{fname}:index-compare:{norm_stmt(n)}", f"{wmod.relpath}:{n.lineno}",
                               f"loop index {iname} is compared with {ast.unparse(other[0]) if other else '?'}, not with the length of the enumerated sequence {seq}")
+
+    rep.rule("C06.R9", "no unsafe memoisation in the modules this property rests on: a function decorated with lru_cache / cache / "
+                      "cached_property neither takes nor returns a mutable object (else later calls see stale or shared results)")
+    from . import common as _common
+    _common.no_unsafe_memoisation(P, rep, "C06.R9", ['writer'])
